@@ -17,9 +17,11 @@ def make_instances(ctx):
     if ctx.thorough:
         shapes += ["cycle7", "grid23", "cycle5", "cycle6", "k5m", "wheel5", "core3x3"]
     for sh in shapes:
+        # (same_scope=False: more factors push the exact normalised values beyond the denominators floats can be rationalised to;
+        #  two different factors on one scope are exercised by C14)
         out.append(mnutil.mn_instance(rng, len(out) + 1, sh, dup=rng.random() < 0.4, unary=rng.random() < 0.5,
-                                      ternary=rng.random() < 0.5, zeros=False))
-    out.append(mnutil.mn_instance(rng, len(out) + 1, "cycle4", dup=True))
+                                      ternary=rng.random() < 0.5, zeros=False, same_scope=False))
+    out.append(mnutil.mn_instance(rng, len(out) + 1, "cycle4", dup=True, same_scope=False))
     bshapes = ["pair", "chain3", "collider3", "diamond", "collider_desc", "family3", "mshape", "student", "chain_coll"]
     for b in instances.bn_instances(ctx.seed + 5, bshapes, 2 if ctx.thorough else 1, kinds=("generic", "twins")):
         b["id"] = len(out) + 1
